@@ -31,6 +31,7 @@ def prepare(ctx):
     ctx.t_in, ctx.t_out = mci_csv_to_ipm, mci_ipm_to_csv
     msgwork.set_packaged(config['bit_config'])
     ctx.tmpdir = tempfile.mkdtemp(prefix='vmon-c20-')
+    ctx.cell_style = None
 
 
 def finish(ctx):
@@ -48,7 +49,20 @@ def columns(ctx):
     return cols
 
 
+WORDS = ('NULL', 'null', 'None', 'nan', 'NaN', 'N/A', 'n/a', 'TRUE', 'False', 'true', '#N/A', '-', '--', '0', '00', '0.0', '1e5', '+5', '1_000',
+         '007', "''", '=1+1', '@x', 'inf', 'Infinity', '2024-01-01', 'DE2', 'MTI')
+
+
 def printable(rng, enc, n, style):
+    if style == 'words':
+        # values that spreadsheet / database tooling treats specially; here they are ordinary text
+        fits = [w for w in WORDS if len(w) <= n and all(ch in gen.repertoire(enc) for ch in w)]
+        if fits:
+            w = rng.choice(fits)
+            return w if rng.random() < 0.5 else w.ljust(n)
+        style = 'alnum'
+    if style == 'mostly_spaces':
+        return ''.join(' ' if rng.random() < 0.85 else rng.choice('AB1') for _ in range(n))
     if style == 'csvmeta':
         rep = gen.repertoire(enc)
         pool = ''.join(ch for ch in ',,"" \'ab1;|' if ch in rep)
@@ -63,7 +77,7 @@ def cell(ctx, rng, col, enc):
         return '%04d' % rng.randint(0, 9999)
     if col.startswith('PDS'):
         n = rng.choice([1, 2, 3, 10, 40, rng.randint(1, 120)])
-        return printable(rng, enc, n, rng.choice(['alnum', 'mixed', 'csvmeta', 'spaces']) if True else 'alnum')
+        return printable(rng, enc, n, ctx.cell_style or rng.choice(['alnum', 'mixed', 'csvmeta', 'spaces', 'words']))
     c = cfg[col[2:]]
     pt = c.get('field_python_type')
     if pt in ('int', 'long'):
@@ -75,9 +89,9 @@ def cell(ctx, rng, col, enc):
         return d.strftime('%Y-%m-%d %H:%M:%S')
     if c.get('field_processor') == 'PDS':
         return gen.gen_pds_text(rng, 'ascii', rng.randint(7, 120)) or '0900003abc'
-    style = rng.choice(['alnum', 'mixed', 'csvmeta', 'spaces', 'digits'])
+    style = ctx.cell_style or rng.choice(['alnum', 'mixed', 'csvmeta', 'spaces', 'digits', 'words'])
     if c['field_type'] == 'FIXED':
-        return printable(rng, enc, c['field_length'], style)
+        return printable(rng, enc, c['field_length'], style).ljust(c['field_length'])      # fixed text is exact-width
     w = 2 if c['field_type'] == 'LLVAR' else 3
     return printable(rng, enc, rng.randint(1, min(60, 10 ** w - 1)), style)
 
@@ -85,6 +99,11 @@ def cell(ctx, rng, col, enc):
 def cases(ctx):
     rng = ctx.rng('tables')
     quick = ctx.tier == 'quick'
+    # unblocked EBCDIC files full of 0x40 (space) runs through the command entry point: nothing but the caller's flag may
+    # decide how the file is read
+    for j in range((6 if quick else 40)):
+        yield {'salt': rng.randint(0, 10 ** 9), 'rows': rng.choice([12, 30, 50]), 'enc': rng.choice(['cp500', 'cp037']), 'blocked': False,
+               'entry': 'cli_run', 'shape': 'space_heavy'}
     for j in range((1200 if quick else 20000) // ctx.nshards + 1):
         yield {'salt': rng.randint(0, 10 ** 9), 'rows': rng.choice([1, 2, 5, 12, 50] + ([] if quick else [150, 400])),
                'enc': rng.choice(CODECS), 'blocked': rng.random() < 0.5, 'entry': rng.choice(['function', 'cli_run']),
@@ -98,6 +117,7 @@ def build_table(ctx, case):
     pds_cols = [c for c in cols if c.startswith('PDS')]
     de_cols = [c for c in cols if c.startswith('DE')]
     shape = case['shape']
+    ctx.cell_style = 'mostly_spaces' if shape == 'space_heavy' else None
     rows = []
     for r in range(case['rows']):
         if shape == 'pds_boundary':
@@ -114,7 +134,7 @@ def build_table(ctx, case):
             rows.append(row)
             ctx_boundary = True
             continue
-        if shape == 'all_columns':
+        if shape in ('all_columns', 'space_heavy'):
             use = ['MTI'] + de_cols + (pds_cols if rng.random() < 0.5 else [])
         elif shape == 'pds_only':
             use = ['MTI'] + rng.sample(pds_cols, rng.randint(1, len(pds_cols)))
@@ -198,6 +218,8 @@ def judge(ctx, case):
                       {'case': case, 'error': repr(val)[:300]})
         return
     ipm_len, out_text = val
+    if case['shape'] == 'space_heavy':
+        ctx.count('unblocked EBCDIC files made mostly of spaces through cli_run')
     got = list(csv.DictReader(io.StringIO(out_text, newline='')))
     if len(got) != len(rows):
         ctx.violation('row_count_differs', {'case': case, 'rows_in': len(rows), 'rows_out': len(got)})
@@ -234,6 +256,8 @@ def require(m):
     reasons = []
     if set(m['classes'].get('entries', ())) != {'function', 'cli_run'}:
         reasons.append('both entry points not driven')
+    if not m['counters'].get('unblocked EBCDIC files made mostly of spaces through cli_run') and not m['violations']:
+        reasons.append('space-heavy unblocked EBCDIC files never run through cli_run')
     if len(set(m['classes'].get('codecs/blocking', ()))) < 6:
         reasons.append('codecs x blocking not all driven')
     cols = set(m['classes'].get('columns supplied', ()))
